@@ -422,6 +422,10 @@ fn pipeline_family(mut chk: Check) -> ! {
             rounds.push((0..k_per_round).map(|k| genr::build_naming_stress(seed ^ ((r * 64 + k + 7) as u64).wrapping_mul(0x9e3779b97f4a7c15))).collect());
             rounds.push((0..k_per_round).map(|k| genr::build_order_stress(seed ^ ((r * 64 + k + 11) as u64).wrapping_mul(0x9e3779b97f4a7c15))).collect());
         }
+        // ... and call graphs that need every pass of the compiler's borrow checker at once (see genr::build_borrow_stress)
+        for r in 0..(if tier == Tier::Quick { 3 } else { 30 }) {
+            rounds.push((0..k_per_round).map(|k| genr::build_borrow_stress(seed ^ ((r * 64 + k + 17) as u64).wrapping_mul(0x9e3779b97f4a7c15))).collect());
+        }
     }
     let rounds = rounds;
     let results: Vec<(usize, RoundOutcome)> = std::thread::scope(|s| {
@@ -1512,6 +1516,13 @@ fn verdict_check(mut chk: Check) -> ! {
         for i in 0..n_tables {
             let g = if i % 2 == 0 { plain.new_tree(&mut runner).unwrap().current() } else { guarded.new_tree(&mut runner).unwrap().current() };
             routing_specs.push(genr::build_routing(&g, i % 8));
+        }
+    }
+    // borrow-checker stress (genr::build_borrow_stress): the fixed points of the borrow checker must terminate with a verdict
+    if !only_replay {
+        let n = if tier == Tier::Quick { 16 } else { 240 };
+        for i in 0..n {
+            routing_specs.push(genr::build_borrow_stress(chk.settings.sub_seed("chaos-borrow") ^ (i as u64 + 1).wrapping_mul(0x9e3779b97f4a7c15)));
         }
     }
     // recorded cases: the recorded spec is the variant, a trivial application is the base
